@@ -184,62 +184,63 @@ MODULES = {"D": ("NocaseMapTrace", "NocaseMapTrace.cfg"),
            "L": ("NocaseMapSeqTrace", "NocaseMapSeqTrace.cfg")}
 
 
-def _corruptions(kind, traces):
-    """(trace, event index (1-based), description) triples: copies of
-    recorded traces with exactly one recorded field changed."""
+def _corruptions(kind, traces, per_kind=4):
+    """(trace, event index (1-based), description, index of the recorded
+    trace it was copied from): copies of recorded traces with exactly one
+    recorded field changed."""
     out = []
 
-    def pick(pred):
-        for t in traces:
+    def each(pred, change, what):
+        n_found = 0
+        for ti, t in enumerate(traces):
             for n, e in enumerate(t):
                 if pred(e):
-                    return copy.deepcopy(t[:n + 1]), n
-        return None, None
-
-    if kind == "D":
-        t, n = pick(lambda e: len(e["dump"]["items"]) >= 2)
-        if t:
-            it = t[n]["dump"]["items"][0]
-            it[1] = it[1] % 3 + 1 if it[0] != 0 else 1
-            out.append((t, n + 1, "dump.items[0] lexical case changed"))
-        t, n = pick(lambda e: len(e["dump"]["items"]) >= 2)
-        if t:
-            t[n]["dump"]["vkeys"] = t[n]["dump"]["vkeys"][:-1]
-            out.append((t, n + 1, "live keys view lost its last key"))
-        t, n = pick(lambda e: e["res"]["tag"] == "val" and e["res"]["val"] > 0)
-        if t:
-            t[n]["res"]["val"] += 1
-            out.append((t, n + 1, "returned value changed"))
-        t, n = pick(lambda e: e["dump"]["has"][0][1] == 1)
-        if t:
-            t[n]["dump"]["has"][0][1] = 0
-            out.append((t, n + 1, "case-insensitive membership probe flipped"))
-        t, n = pick(lambda e: len(e["dump"]["items"]) >= 2)
-        if t:
-            t[n]["dump"]["items"].reverse()
-            out.append((t, n + 1, "dump.items order reversed"))
-    else:
-        t, n = pick(lambda e: len(e["dump"]["items"]) >= 2)
-        if t:
-            it = t[n]["dump"]["items"][-1]
-            it[1] = it[1] % 3 + 1 if it[0] != 0 else 1
-            out.append((t, n + 1, "dump.items[-1] lexical case changed"))
-        t, n = pick(lambda e: any(p[1] > 0 for p in e["dump"]["probe"]))
-        if t:
-            for p in t[n]["dump"]["probe"]:
-                if p[1] > 0:
-                    p[1] -= 1
+                    c = copy.deepcopy(t[:n + 1])
+                    change(c[n])
+                    out.append((c, n + 1, what, ti))
+                    n_found += 1
                     break
-            out.append((t, n + 1, "case-insensitive count probe changed"))
-        t, n = pick(lambda e: e["res"]["tag"] == "list" and
-                    e["res"]["type"] == "NocaseList")
-        if t:
-            t[n]["res"]["type"] = "list"
-            out.append((t, n + 1, "returned list type changed"))
-        t, n = pick(lambda e: e["op"] == "index" and e["res"]["tag"] == "val")
-        if t:
-            t[n]["res"]["val"] += 1
-            out.append((t, n + 1, "returned index changed"))
+            if n_found >= per_kind:
+                return
+
+    def case_of(it):
+        it[1] = it[1] % 3 + 1 if it[0] != 0 else 1
+
+    def dec_probe(e):
+        for p in e["dump"]["probe"]:
+            if p[1] > 0:
+                p[1] -= 1
+                return
+
+    def bump(e):
+        e["res"]["val"] += 1
+
+    two = lambda e: len(e["dump"]["items"]) >= 2  # noqa
+    if kind == "D":
+        each(two, lambda e: case_of(e["dump"]["items"][0]),
+             "dump.items[0] lexical case changed")
+        each(two, lambda e: e["dump"]["vkeys"].pop(),
+             "live keys view lost its last key")
+        each(lambda e: e["res"]["tag"] == "val" and e["res"]["val"] > 0, bump,
+             "returned value changed")
+        each(lambda e: e["dump"]["has"][0][1] == 1,
+             lambda e: e["dump"]["has"][0].__setitem__(1, 0),
+             "case-insensitive membership probe flipped")
+        each(lambda e: two(e) and e["dump"]["items"][0] != e["dump"]["items"][-1],
+             lambda e: e["dump"]["items"].reverse(),
+             "dump.items order reversed")
+    else:
+        each(two, lambda e: case_of(e["dump"]["items"][-1]),
+             "dump.items[-1] lexical case changed")
+        each(lambda e: any(p[1] > 0 for p in e["dump"]["probe"]), dec_probe,
+             "case-insensitive count probe changed")
+        each(lambda e: e["res"]["tag"] == "list" and
+             e["op"] in ("add", "mul", "rmul", "copy") and
+             e["res"]["type"] == "NocaseList",
+             lambda e: e["res"].__setitem__("type", "list"),
+             "returned list type changed")
+        each(lambda e: e["op"] == "index" and e["res"]["tag"] == "val", bump,
+             "returned index changed")
     return out
 
 
@@ -248,20 +249,28 @@ def judge(ctx, kind, drivers):
     module, cfg = MODULES[kind]
     traces = [clean(d.events) for d in drivers]
     bad = _corruptions(kind, traces)
-    if len(bad) < 4:
-        raise vlib.MachineryError("self-test: could not build corrupted "
-                                  "traces for %s" % kind)
     verdicts = ctx.validate_traces(module, cfg,
                                    traces + [b[0] for b in bad])
     ctx.traces -= len(bad)
     ctx.events -= sum(len(b[0]) for b in bad)
     selftest = ctx.extra.setdefault("selftest_corrupted_traces_rejected", [])
-    for (t, at, what), v in zip(bad, verdicts[len(traces):]):
+    kinds_ok = set()
+    for (t, at, what, base), v in zip(bad, verdicts[len(traces):]):
+        bv = verdicts[base]
+        if not bv["ok"] and bv["at"] <= at:
+            continue      # the recorded trace itself is rejected there
         if v["ok"] or v["at"] != at:
             raise vlib.MachineryError(
                 "self-test failed: corrupted %s trace (%s) not rejected at "
                 "event %d: %r" % (kind, what, at, v))
-        selftest.append("%s: %s -> rejected %s" % (kind, what, v["clauses"]))
+        if what not in kinds_ok:
+            selftest.append("%s: %s -> rejected %s" % (kind, what,
+                                                       v["clauses"]))
+        kinds_ok.add(what)
+    if len(kinds_ok) < 3:
+        raise vlib.MachineryError(
+            "self-test: only %d kinds of corrupted %s traces could be "
+            "checked" % (len(kinds_ok), kind))
     ops = ctx.actions_bound or {}
     for t in traces:
         for e in t:
